@@ -102,6 +102,11 @@ def exec_cases():
           'one += two()', 'one = two()', 'one -= id(two()); one', 'x = 1; one *= cnt(x = 5, two()); [x, one]', 't = f() ? one() : two(); t', 'boom = one()', 'boom += one()', 'one += boom()',
           # statements that are a bare provider name (C06/C07: it is evaluated, its failure stops the program)
           'x = 1; boom; x = 2; x', 'boom; y = 5', 'one; two(); 3', '1; boom', 'boom; 1', 'x = 1; one; x', 'nope; 2', "'s'; boom; 3", 'x = one; boom; x',
+          # lists / maps of different lengths under == != in (C01: no index past the shorter one; C03)
+          '[1, 2] == [1]', '[1] == [1, 2]', '[1, 2, 3] != []', '[] != [1]', '[] == []', "['a'] in [['a', 'b'], 2]", "['a', 'b'] in [['a'], ['a', 'b']]", '{1: 2, 3: 4} == {1: 2}', '{1: 2} == {1: 2, 3: 4}', '{} == {}', '[[1, 2], [3]] == [[1], [3]]', '[1, [2, 3]] != [1, [2]]',
+          '{1: 2, 3: 4} == {3: 4, 1: 2}', '[1, 2] == [2, 1]', '[[]] == []', '[1, 2] in [[1], [1, 2, 3]]', '[] in [[]]', '{} in [{}]', '[{}] == [{1: 1}]',
+          # a zero keeps its digits like any other number (C09)
+          '0.00', '1.5 - 1.50', '4.50 % 1.5', '0.0 + 0.00', '0.000 * 5', 'z = 0.0; z', '[0.00, 0, 0.0]', '0.10 - 0.1', '2.50 - 2.5 == 0', '-0.00', '0.00 == 0',
           # a chain whose LAST statement has an effect (C07/C06: every statement runs exactly once, the last one included)
           'a = 1; one()', 'x = 10; y = 1; x += 5', 'one(); two()', 'x = 2; x *= x', 'one(); boom()', 't(); cnt(one())', 'x = 1; y = 2; x <<= y', 'one();', 'x = 1; x += 1;', 'x = 1; x += 1; x += 1', 'two(); one(); one()', 'x = 3; x -= 1; x -= 1;', 'x = 5; one(); x %= 3',
           # membership over elements with effects (C07: every element is evaluated, left to right, before the test)
@@ -272,6 +277,24 @@ SCRIPTS = [
         ('exec', 'TRUE(1)', {}), ('exec', 'FALSE(21)', {}), ('exec', 'tRue()', {}), ('exec', 'Not(true)', {}), ('exec', 'IN(1, 2)', {}), ('exec', 'and(1)', {}), ('exec', 'Or()', {}), ('exec', 'BeginWith(1)', {}), ('exec', 'True', {}), ('exec', 'false', {}), ('parse', 'TRUE', {}), ('parse', 'fALSE == faLse', {})],
        expect=[None] * 8 + [('val', 'String("kT")', ['C08', 'C10']), ('val', 'String("kF")', ['C08', 'C10']), ('val', 'String("kt")', ['C08', 'C10']), ('val', 'String("kN")', ['C08', 'C10']), ('val', 'String("kI")', ['C08', 'C10']), ('val', 'String("ka")', ['C08', 'C10']), ('val', 'String("ko")', ['C08', 'C10']), ('val', 'String("kb")', ['C08', 'C10']),
                ('val', 'Bool(true)'), ('val', 'Bool(false)'), ('ast', 'Reference("TRUE")'), ('ast', 'Binary("==", Reference("fALSE"), Reference("faLse"))')]),
+  # the very first call of a process (each script is a fresh process): the registries are initialised before the first token is read (C10, C03, C02)
+  dict(name='first_call_word_prefix', steps=[('exec', 'not true', {}), ('exec', 'not true', {})], expect=[('val', 'Bool(false)', ['C03', 'C10', 'C02', 'C08']), ('val', 'Bool(false)')]),
+  dict(name='first_call_parse_word_prefix', steps=[('parse', 'not true', {})], expect=[('ast', 'Unary("not", Literal(Bool(true)))', ['C10', 'C02', 'C05'])]),
+  dict(name='first_call_list_prefix', steps=[('exec', 'AND[1<2, false]', {})], expect=[('val', 'Bool(false)', ['C03', 'C10', 'C02'])]),
+  dict(name='first_call_symbolic_prefix', steps=[('parse', '-5', {})], expect=[('ast', 'Unary("-", Literal(Number(5)))', ['C10', 'C02', 'C05'])]),
+  dict(name='first_call_double_prefix', steps=[('parse', '--5', {})], expect=[('reject',)]),
+  dict(name='first_call_call', steps=[('exec', 'min(3, 1, 2)', {})], expect=[('val', 'Number(1)', ['C03', 'C08'])]),
+  dict(name='first_call_infix', steps=[('exec', '1 + 2 * 3', {})], expect=[('val', 'Number(7)', ['C03', 'C02', 'C10'])]),
+  dict(name='first_call_postfix', steps=[('parse', 'x++', {})], expect=[('ast', 'Postfix(Reference("x"), "++")', ['C10', 'C02', 'C05'])]),
+  dict(name='first_call_describe', steps=[('describe', 'not a ? [b] : {c: d}', {})], expect=[('describe', 'nota?[b]:{c:d}')]),
+  # registered operators that begin like the conditional markers or like a built-in (C08, C10): the registered operator wins as a whole
+  dict(name='operators_that_begin_like_conditional_markers', steps=[('reg_infix', '??', dict(tag='coalesce', p='45', assoc='R')), ('reg_infix', '?-', dict(tag='qm', p='121', assoc='L')), ('reg_infix', '::', dict(tag='cons', p='105', assoc='R')), ('reg_infix', ':=', dict(tag='walrus', p='20', assoc='R')),
+        ('exec', 'missing ?? 5', {}), ('exec', '10 ?- 3', {}), ('exec', '1 :: 2', {}), ('exec', '7 := 8', {}), ('exec', 'true ? 1 : 2', {}), ('parse', 'a ?? b ? c : d', {}), ('parse', 'a ? b :: c : d', {})],
+       expect=[None, None, None, None, ('val', 'List([String("coalesce"), None, Number(5)])', ['C08', 'C10', 'C05']), ('val', 'List([String("qm"), Number(10), Number(3)])', ['C08', 'C10', 'C05']), ('val', 'List([String("cons"), Number(1), Number(2)])', ['C08', 'C10', 'C05']),
+               ('val', 'List([String("walrus"), Number(7), Number(8)])', ['C08', 'C10', 'C05']), ('val', 'Number(1)'), ('table',), ('table',)]),
+  dict(name='adjacent_precedences_round_trip', steps=[('reg_infix', 'lo', dict(tag='lo', p='131', assoc='L')), ('reg_infix', 'mid', dict(tag='mid', p='132', assoc='L')), ('reg_infix', 'hi', dict(tag='hi', p='133', assoc='L')), ('reg_infix', 'rr', dict(tag='rr', p='132', assoc='R')),
+        ('parse', 'a lo ((b mid c) hi d)', {}), ('parse', '(a lo b) mid c', {}), ('parse', 'a hi (b mid c)', {}), ('parse', '(a hi b) mid (c lo d)', {}), ('parse', 'a rr (b mid c)', {}), ('parse', '(a rr b) rr c', {}), ('parse', 'a lo b mid c hi d', {}), ('parse', '(a rr b) hi c', {})],
+       expect=[None, None, None, None, ('roundtrip',), ('roundtrip',), ('roundtrip',), ('roundtrip',), ('roundtrip',), ('roundtrip',), ('roundtrip',), ('roundtrip',)]),
   dict(name='postfix_registered_after_use', steps=[('parse', '5!!', {}), ('reg_postfix', '!!', dict(tag='ff')), ('parse', '5!!', {})], expect=[('reject',), None, ('ast', 'Postfix(Literal(Number(5)), "!!")')]),
   dict(name='word_postfix_registered_after_use', steps=[('parse', '3 squared', {}), ('reg_postfix', 'squared', dict(tag='sq')), ('parse', '3 squared', {})],
        expect=[('ast', 'Stmt([Literal(Number(3)), Reference("squared")])'), None, ('ast', 'Postfix(Literal(Number(3)), "squared")')]),
